@@ -41,25 +41,30 @@ CASE_TIMEOUT_S = 1500
 
 H = {'horizontal': '@horizontal', 'block_dim': '@block_dim'}
 
-# rotation of pipeline pairs over case indices (idx % 16); the index-stack variants with known findings
-# occupy small slices only
+# rotation of pipeline pairs over case indices (idx % 16).  Slot options gate generator features / options with
+# a known finding into small slices so that they are still observed but cannot mask other violations:
+#   posargs   hoisting with as_kwarguments=False on calls that carry keyword arguments (always the case after the
+#             sequential revector stage, which adds ``jl=jl``); everywhere else as_kwarguments=True is used for
+#             the sequential hoist pipeline and keyword calls are not combined with positional hoisting
+#   drvsec    horizontal loops in the driver's block loop together with an IFS-style block loop whose body
+#             computes the block index and the upper bound (untrimmed driver vector sections)
 ROT = [
-    ('SCCVVectorPipeline', 'SCCSVectorPipeline'),
-    ('SCCVHoistPipeline', 'SCCVStackPipeline'),
-    ('SCCSVectorPipeline', 'SCCSStackPipeline'),
-    ('SCCVVectorPipeline', 'SCCSHoistPipeline'),
-    ('SCCVStackPipeline', 'SCCSStackPipeline'),
-    ('SCCVHoistPipeline', 'SCCSVectorPipeline'),
-    ('SCCVVectorPipeline', 'SCCVRawStackPipeline'),
-    ('SCCSHoistPipeline', 'SCCVStackPipeline'),
-    ('SCCVVectorPipeline', 'SCCSVectorPipeline'),
-    ('SCCVHoistPipeline', 'SCCSStackPipeline'),
-    ('SCCSVectorPipeline', 'SCCVStackFtrPtrPipeline'),
-    ('SCCVVectorPipeline', 'SCCVHoistPipeline'),
-    ('SCCSStackPipeline', 'SCCVStackDirectIdxPipeline'),
-    ('SCCSHoistPipeline', 'SCCVVectorPipeline'),
-    ('SCCVStackPipeline', 'SCCSRawStackPipeline'),
-    ('SCCSVectorPipeline', 'SCCVHoistPipeline'),
+    ('SCCVVectorPipeline', 'SCCSVectorPipeline', ()),
+    ('SCCVHoistPipeline', 'SCCVStackPipeline', ()),
+    ('SCCSVectorPipeline', 'SCCSStackPipeline', ()),
+    ('SCCVVectorPipeline', 'SCCSHoistPipeline', ('posargs',)),
+    ('SCCVStackPipeline', 'SCCSStackPipeline', ()),
+    ('SCCVHoistPipeline', 'SCCSVectorPipeline', ()),
+    ('SCCVVectorPipeline', 'SCCVRawStackPipeline', ()),
+    ('SCCSHoistPipeline', 'SCCVStackPipeline', ()),
+    ('SCCVVectorPipeline', 'SCCSVectorPipeline', ('drvsec',)),
+    ('SCCVHoistPipeline', 'SCCSStackPipeline', ()),
+    ('SCCSVectorPipeline', 'SCCVStackFtrPtrPipeline', ()),
+    ('SCCVVectorPipeline', 'SCCVHoistPipeline', ()),
+    ('SCCSStackPipeline', 'SCCVStackDirectIdxPipeline', ()),
+    ('SCCSHoistPipeline', 'SCCVVectorPipeline', ()),
+    ('SCCVStackPipeline', 'SCCSRawStackPipeline', ()),
+    ('SCCSVectorPipeline', 'SCCVHoistPipeline', ()),
 ]
 
 
@@ -70,6 +75,7 @@ def family(name):
 
 def case_plan(rng, idx):
     r = idx % 16
+    n1, n2, opts = ROT[r]
     flags = {
         'names': rng.choice('AB'),
         'depth': rng.choice([1, 2, 2, 2, 3]),
@@ -82,11 +88,15 @@ def case_plan(rng, idx):
         'horizontal_outer': rng.random() < 0.7,
         'max_stmts': rng.choice([2, 3, 4]),
     }
+    if 'drvsec' in opts:
+        flags['ifs_block_loop'] = flags['driver_sections'] = True
+    elif flags['ifs_block_loop']:
+        flags['driver_sections'] = False
     specs = []
-    for name in ROT[r]:
+    for name in (n1, n2):
         kw = dict(H)
         kw['directive'] = rng.choice([None, 'openacc', 'openacc', 'omp-gpu'])
-        if rng.random() < 0.3:
+        if rng.random() < 0.3 and 'drvsec' not in opts:
             kw['trim_vector_sections'] = True
         if rng.random() < 0.2:
             kw['demote_local_arrays'] = False
@@ -95,9 +105,17 @@ def case_plan(rng, idx):
         if 'Stack' in name:
             kw['check_bounds'] = rng.random() < 0.75
             kw['int_kind'] = 'jpim'
-        if 'Hoist' in name and rng.random() < 0.5:
-            kw['as_kwarguments'] = True
-        specs.append({'name': name, 'family': family(name), 'steps': [(name, kw)]})
+        if 'Hoist' in name:
+            if 'posargs' in opts:
+                kw['as_kwarguments'] = False
+            elif name.startswith('SCCS') or flags['keyword_calls']:
+                kw['as_kwarguments'] = True
+            else:
+                kw['as_kwarguments'] = rng.random() < 0.4
+        if 'RawStack' in name and not name.startswith('SCCS'):
+            flags['keyword_calls'] = False     # see C38: positional stack arguments on calls with keywords
+        specs.append({'name': name, 'family': family(name), 'steps': [(name, kw)],
+                      'shim_contiguous': 'FtrPtr' in name or 'DirectIdx' in name})
     return flags, specs
 
 
